@@ -572,6 +572,73 @@ func concurrentRotation(n, g, per int) {
 
 // concurrentStress: many selecting goroutines on every selector while updaters run; crash or
 // non-member = violation (membership checked against the universe, which never changes).
+// independentInstances: several selectors of one kind, each used by its own single goroutine
+// (updates and selections interleaved), all running in parallel.  Instances share nothing a caller
+// can see, so nothing may go wrong: no panic, no non-member, and (under -race) no report in the
+// selector package — state shared behind the instances' backs shows up here only.
+func independentInstances(kind string, weighted bool, dur time.Duration) {
+	const inst = 16
+	var wg sync.WaitGroup
+	var bad, n, panics atomic.Int64
+	var firstPanic atomic.Value
+	stop := make(chan struct{})
+	for k := 0; k < inst; k++ {
+		wg.Add(1)
+		go func(k int) {
+			defer wg.Done()
+			defer func() {
+				if r := recover(); r != nil {
+					panics.Add(1)
+					firstPanic.CompareAndSwap(nil, fmt.Sprintf("%v\n%s", r, debug.Stack()))
+				}
+			}()
+			sel := newSelector(kind, weighted)
+			univ := map[string]bool{}
+			eps := make([]endpoint.Endpoint, 8)
+			for i := range eps {
+				eps[i] = selref.EP(fmt.Sprintf("10.5.%d.%d", k, i+1), int32(1+(i*3+k)%9), 1)
+				univ[eps[i].Host] = true
+			}
+			r := rand.New(rand.NewSource(int64(1000 + k)))
+			sel.Refresh(eps[:4])
+			for {
+				select {
+				case <-stop:
+					return
+				default:
+				}
+				switch r.Intn(8) {
+				case 0:
+					sel.Refresh(eps[r.Intn(4) : 4+r.Intn(4)])
+				case 1:
+					_ = sel.Add(eps[r.Intn(8)])
+				case 2:
+					_ = sel.Remove(eps[r.Intn(8)])
+				default:
+					e, err := sel.Select(selref.Msg{Code: r.Uint32(), Hash: true})
+					if err == nil && !univ[e.Host] {
+						bad.Add(1)
+					}
+					n.Add(1)
+				}
+			}
+		}(k)
+	}
+	time.Sleep(dur)
+	close(stop)
+	wg.Wait()
+	rep.Eval(1)
+	rep.Add("independent_instance_selections", n.Load())
+	rep.Distinct(fmt.Sprintf("independent|%s|%v", kind, weighted))
+	if panics.Load() > 0 {
+		rep.Violation("panic", kind+"-independent-instances", fmt.Sprintf("%d of %d independent %s selectors, each used by one goroutine only, panicked while the others ran in parallel", panics.Load(), inst, kind),
+			map[string]interface{}{"selector": kind, "weighted": weighted, "first_panic": firstPanic.Load()})
+	}
+	if bad.Load() > 0 {
+		rep.Violation("non-member-selected", kind+"-independent-instances", fmt.Sprintf("%d selections returned a host of another instance's universe", bad.Load()), map[string]interface{}{"selector": kind})
+	}
+}
+
 func concurrentStress(kind string, weighted bool, dur time.Duration) {
 	sel := newSelector(kind, weighted)
 	univ := map[string]bool{}
@@ -703,6 +770,7 @@ func childMain() {
 				d = 2 * time.Second
 			}
 			concurrentStress(kind, w, d)
+			independentInstances(kind, w, d)
 		}
 	}
 	for _, c := range [][3]int{{1, 4, 1000}, {2, 8, 5000}, {3, 6, 5000}, {4, 8, 50000}, {7, 14, 10000}, {64, 16, 64000}} {
